@@ -4,6 +4,7 @@ CONSTANTS Sender = {"s1", "s2"}
           QueueMode = TRUE
           QCap = 2
           MaxConn = 3
+          Broken = "none"
           NPacks = 3
 PROPERTIES NoLossWhenHealthy
 INVARIANTS TypeOK MutualExclusion FramesWhole FreshStart InOrderAtMostOnce HeaderRight ErrMeansNotDelivered NoLossSafe Recovers WriterErrorJustified
